@@ -381,10 +381,17 @@ impl Sim {
                     Err(flume::TryRecvError::Empty) => None,
                 },
             };
+            let kind = match &p {
+                Pending::Unreg(_) => "unreg",
+                Pending::Status(_) => "status",
+                Pending::Metrics(_) => "metrics",
+                Pending::Shutdown(_) => "shutdown",
+            };
             match r {
                 Some(v) => {
                     self.replies.insert(cid, v.clone());
-                    replies.push(json!({"call": cid, "v": v}));
+                    let kind = if v == json!("closed") { "closed" } else { kind };
+                    replies.push(json!({"call": cid, "k": kind, "v": v}));
                 }
                 None => still.push((cid, p)),
             }
